@@ -201,4 +201,233 @@ theorem lookGo_found (rem : List Part) : ∀ (res : Res V) (fw : Option (Option 
         have hu : (⟨u.host, Seg.wild⟩ : Part) = u := by cases u; simp_all
         simp [stuck, hs, Seg.isPar, hu]
 
+/-! ### (own) -/
+
+/-- No wildcard fallback can answer for the pattern `rem` below the node `res` (with `fw` the wildcard
+    already seen above). -/
+structure NoConf (res : Res V) (fw : Option (Option V)) (rem : Url) : Prop where
+  zero : ∀ e ∈ res, wildPos e.1 rem ≠ some rem.length
+  anc : endsWild rem = false →
+    (fw = none ∧ ∀ w ∈ res, coversAbove 0 w.1 rem = false) ∨ (∀ e ∈ res, runsPast e.1 rem = false)
+  ancW : endsWild rem = true →
+    (fw = none ∧ ∀ w ∈ res, coversAbove 1 w.1 rem = false) ∨ (∀ e ∈ res, reaches e.1 rem.dropLast = false)
+
+def AllSome (res : Res V) : Prop := ∀ e ∈ res, e.2 ≠ none
+
+theorem AllSome.step {res : Res V} (h : AllSome res) (k : Key) : AllSome (step k res) := by
+  intro ⟨rest, v⟩ hmem
+  obtain ⟨p, hp, _⟩ := mem_step.mp hmem
+  exact h (p :: rest, v) hp
+
+theorem wildPos_cons_step {p u : Part} (hnw : p.seg ≠ .wild) (hacc : segAccepts p.seg u.seg = true)
+    (e' rest : List Part) : wildPos (p :: e') (u :: rest) = (wildPos e' rest).map (· + 1) := by
+  cases hs : p.seg with
+  | wild => exact absurd hs hnw
+  | lit s => rw [hs] at hacc; simp [wildPos, hs, hacc]
+  | par n => rw [hs] at hacc; simp [wildPos, hs, hacc]
+
+theorem coversAbove_cons_step {p u : Part} (hnw : p.seg ≠ .wild) (hacc : segAccepts p.seg u.seg = true)
+    (k : Nat) (e' rest : List Part) : coversAbove k (p :: e') (u :: rest) = coversAbove k e' rest := by
+  unfold coversAbove
+  rw [wildPos_cons_step hnw hacc]
+  cases wildPos e' rest with
+  | none => rfl
+  | some n => simp only [Option.map_some, List.length_cons]; congr 1; apply propext; omega
+
+theorem coversAbove_wild {w : Part} (hw : w.seg = .wild) (k : Nat) (us : Url) :
+    coversAbove k [w] us = decide (k < us.length) := by
+  simp [coversAbove, wildPos, hw]
+
+theorem NoConf.step {res : Res V} {fw : Option (Option V)} {u : Part} {rest : Url} {k : Key}
+    (h : NoConf res fw (u :: rest)) (hwl : WildLast res) (hu : u.seg ≠ .wild)
+    (hk : ∀ p : Part, p.seg.key = k → p.seg ≠ .wild ∧ segAccepts p.seg u.seg = true ∧ trieAccepts p u = true) :
+    NoConf (step k res) (match wildChild? res with | some wv => some wv | none => fw) rest := by
+  have hfw : ∀ j, j < (u :: rest).length → (∀ w ∈ res, coversAbove j w.1 (u :: rest) = false) →
+      wildChild? res = none := by
+    intro j hj hall
+    cases hw : wildChild? res with
+    | none => rfl
+    | some wv =>
+      obtain ⟨w, hws, hm⟩ := wildChild?_entry hwl hw
+      have := hall _ hm
+      rw [coversAbove_wild hws] at this
+      simp only [List.length_cons, decide_eq_false_iff_not] at this hj
+      omega
+  refine ⟨?_, ?_, ?_⟩
+  · intro ⟨e', v⟩ hmem hz
+    obtain ⟨p, hp, hpk⟩ := mem_step.mp hmem
+    obtain ⟨hnw, hacc, _⟩ := hk p hpk
+    apply h.zero _ hp
+    rw [wildPos_cons_step hnw hacc]
+    simp only at hz
+    simp [hz]
+  · intro hew
+    have hew' : endsWild (u :: rest) = false := by
+      rw [endsWild_cons]
+      by_cases hr : rest = []
+      · simp [hr, hu]
+      · simp only [hr, if_false]; exact hew
+    rcases h.anc hew' with ⟨hfn, hall⟩ | hall
+    · left
+      rw [hfw 0 (by simp) hall]
+      refine ⟨hfn, ?_⟩
+      intro ⟨e', v⟩ hmem
+      obtain ⟨p, hp, hpk⟩ := mem_step.mp hmem
+      obtain ⟨hnw, hacc, _⟩ := hk p hpk
+      have := hall _ hp
+      rwa [coversAbove_cons_step hnw hacc] at this
+    · right
+      intro ⟨e', v⟩ hmem
+      obtain ⟨p, hp, hpk⟩ := mem_step.mp hmem
+      obtain ⟨_, _, hta⟩ := hk p hpk
+      have := hall _ hp
+      simpa [runsPast, hta] using this
+  · intro hew
+    have hr : rest ≠ [] := by intro hr; subst hr; simp [endsWild] at hew
+    have hew' : endsWild (u :: rest) = true := by rw [endsWild_cons]; simp [hr, hew]
+    rcases h.ancW hew' with ⟨hfn, hall⟩ | hall
+    · left
+      have hlen : 1 < (u :: rest).length := by
+        cases rest with
+        | nil => exact absurd rfl hr
+        | cons a l => simp
+      rw [hfw 1 hlen hall]
+      refine ⟨hfn, ?_⟩
+      intro ⟨e', v⟩ hmem
+      obtain ⟨p, hp, hpk⟩ := mem_step.mp hmem
+      obtain ⟨hnw, hacc, _⟩ := hk p hpk
+      have := hall _ hp
+      rwa [coversAbove_cons_step hnw hacc] at this
+    · right
+      intro ⟨e', v⟩ hmem
+      obtain ⟨p, hp, hpk⟩ := mem_step.mp hmem
+      obtain ⟨_, _, hta⟩ := hk p hpk
+      have := hall _ hp
+      rw [List.dropLast_cons_of_ne_nil hr] at this
+      simpa [reaches, hta] using this
+
+theorem reaches_nil (e : Pattern) : reaches e [] = true := by cases e <;> rfl
+
+/-- If the lookup of the pattern `rem` reports `path ++ rem` as normalised URL, it answers with the entry
+    of `rem` itself — outside `NoConf` violations. -/
+theorem lookGo_norm_own (rem : List Part) : ∀ (res : Res V) (fw : Option (Option V))
+    (params : List (String × String)) (path : List Part),
+    WildLast res → PartsOK res → AllSome res → Aligned res rem → NoConf res fw rem → (res ≠ [] ∨ fw = none) →
+    (lookGo res fw params path rem).isMatch = true →
+    (lookGo res fw params path rem).norm = path ++ rem →
+    (rem, (lookGo res fw params path rem).value) ∈ res := by
+  induction rem with
+  | nil =>
+    intro res fw params path hwl _ hall _ hnc hne hm _
+    unfold lookGo at hm ⊢
+    cases hn : nodeValue res with
+    | some v => simp only; exact nodeValue_some hn
+    | none =>
+      rw [hn] at hm
+      simp only at hm ⊢
+      cases hw : wildChild? res with
+      | some wv =>
+        obtain ⟨w, hws, hmem⟩ := wildChild?_entry hwl hw
+        exact absurd (by simp [wildPos, hws]) (hnc.zero _ hmem)
+      | none =>
+        rw [hw] at hm
+        simp only at hm ⊢
+        cases fw with
+        | none => simp [LookupResult.none] at hm
+        | some wv =>
+          exfalso
+          rcases hnc.anc (by simp [endsWild]) with ⟨hf, _⟩ | hrp
+          · cases hf
+          · rcases hne with hne | hf
+            · obtain ⟨⟨q, ov⟩, he⟩ := List.exists_mem_of_ne_nil _ hne
+              cases q with
+              | nil => exact hall _ he (nodeValue_none hn he)
+              | cons p q' =>
+                have := hrp _ he
+                simp [runsPast] at this
+                exact wildChild?_none hw he this
+            · cases hf
+  | cons u rest ih =>
+    intro res fw params path hwl hp hall hal hnc hne hm hnorm
+    rcases lookGo_cons_cases res fw params path u rest with ⟨s, hs, hf, he⟩ | ⟨_, ⟨n, hpc, he⟩ | ⟨_, he⟩⟩
+    · rw [he] at hm hnorm ⊢
+      obtain ⟨tail, ht⟩ := lookGo_norm_prefix _ _ _ _ _ hm
+      have htail : tail = rest := by
+        rw [ht, List.append_assoc] at hnorm
+        have := List.append_cancel_left hnorm
+        simpa using this
+      subst htail
+      obtain ⟨p0, r0, v0, hm0, hp0s, hp0h⟩ := constFlag?_some hf
+      have hp0 : p0 = u := by cases p0; cases u; simp_all
+      subst hp0
+      have hk : ∀ p : Part, p.seg.key = Key.lit s →
+          p.seg ≠ .wild ∧ segAccepts p.seg p0.seg = true ∧ trieAccepts p p0 = true := by
+        intro p hpk
+        have := key_eq_lit hpk
+        simp [this, hs, segAccepts, trieAccepts]
+      have := ih _ _ params (path ++ [p0]) (hwl.step _) (hp.step _) (hall.step _) (hal.step (stepOK_lit hs))
+        (hnc.step hwl (by rw [hs]; simp) hk)
+        (.inl (List.ne_nil_of_mem (mem_step.mpr ⟨p0, hm0, by rw [hs]; rfl⟩))) hm ht
+      obtain ⟨p, hpm, hpk⟩ := mem_step.mp this
+      have : p = p0 := hp.head_eq hpm hm0 (by rw [hpk, hs]; rfl)
+      subst this
+      exact hpm
+    · rw [he] at hm hnorm ⊢
+      obtain ⟨tail, ht⟩ := lookGo_norm_prefix _ _ _ _ _ hm
+      have hboth : (⟨u.host, Seg.par n⟩ : Part) = u ∧ tail = rest := by
+        rw [ht, List.append_assoc] at hnorm
+        have := List.append_cancel_left hnorm
+        simpa using this
+      obtain ⟨hu, htail⟩ := hboth
+      subst htail
+      have hus : u.seg = .par n := by rw [← hu]
+      obtain ⟨p0, r0, v0, hm0, hp0s, hp0h⟩ := parChild?_some hpc
+      have hp0 : p0 = u := by cases p0; cases u; simp_all
+      subst hp0
+      have hk : ∀ p : Part, p.seg.key = Key.par →
+          p.seg ≠ .wild ∧ segAccepts p.seg p0.seg = true ∧ trieAccepts p p0 = true := by
+        intro p hpk
+        obtain ⟨m, hm'⟩ := key_eq_par hpk
+        simp [hm', hus, segAccepts, trieAccepts]
+      rw [hu] at ht hm ⊢
+      have := ih _ _ _ (path ++ [p0]) (hwl.step _) (hp.step _) (hall.step _) (hal.step (k := .par) stepOK_par)
+        (hnc.step hwl (by rw [hus]; simp) hk)
+        (.inl (List.ne_nil_of_mem (mem_step.mpr ⟨p0, hm0, by rw [hus]; rfl⟩))) hm ht
+      obtain ⟨p, hpm, hpk⟩ := mem_step.mp this
+      have : p = p0 := hp.head_eq hpm hm0 (by rw [hpk, hus]; rfl)
+      subst this
+      exact hpm
+    · rw [he] at hm hnorm ⊢
+      obtain ⟨wv, hfw, hst⟩ := stuck_match hm
+      rw [hst] at hnorm ⊢
+      simp only at hnorm ⊢
+      have hboth : (⟨u.host, Seg.wild⟩ : Part) = u ∧ rest = [] := by
+        have := List.append_cancel_left hnorm
+        simp only [List.cons.injEq] at this
+        exact ⟨this.1, this.2.symm⟩
+      obtain ⟨hu, hrest⟩ := hboth
+      subst hrest
+      have hus : u.seg = .wild := by rw [← hu]
+      cases hw : wildChild? res with
+      | some wv' =>
+        rw [hw] at hfw
+        simp only [Option.some.injEq] at hfw
+        subst hfw
+        obtain ⟨w, hws, hmem⟩ := wildChild?_entry hwl hw
+        have hwh := hal.head hmem (.inr hws)
+        have : w = u := by cases w; cases u; simp_all
+        subst this
+        exact hmem
+      | none =>
+        rw [hw] at hfw
+        simp only at hfw
+        exfalso
+        rcases hnc.ancW (by simp [endsWild, hus]) with ⟨hf, _⟩ | hr
+        · rw [hf] at hfw; cases hfw
+        · rcases hne with hne | hf
+          · obtain ⟨e, he'⟩ := List.exists_mem_of_ne_nil _ hne
+            have := hr _ he'
+            simp [reaches_nil] at this
+          · rw [hf] at hfw; cases hfw
+
 end LunarVerif.C03
